@@ -3,10 +3,13 @@
 import importlib, json, os, sys
 sys.path.insert(0, os.path.dirname(os.path.abspath(__file__)))
 ALL = ['C%02d' % i for i in range(1, 21)]
+READY = json.load(open('ready.json'))     # property modules that are finished and validated
 NOTES = json.load(open('manifest_notes.json')) if os.path.exists('manifest_notes.json') else {}
 checks, na = [], []
 for pid in ALL:
     try:
+        if pid not in READY:
+            raise ModuleNotFoundError(pid)
         mod = importlib.import_module('pv.props.' + pid)
     except ModuleNotFoundError:
         na.append(dict(property_id=pid, reason=NOTES.get(pid, {}).get('na', 'check not built yet in this round (planned, see DESIGN.md section 3); not claimed')))
